@@ -6,6 +6,7 @@ import Hive.Json
 import Hive.Canon
 import Hive.Monitor
 import Hive.MonitorTrav
+import Hive.Stack
 
 open Lean Hive
 
@@ -29,6 +30,29 @@ def optField {α} [FromJson α] (j : Json) (k : String) (dflt : α) : Except Str
 
 def strs (xs : List String) : Json := Json.arr (xs.map Json.str).toArray
 
+/-- C09 on implementation data: one instruction applied alone -/
+def violAtomic (pre post : Sim) (i : Instr) : List String :=
+  let same := (diffFlat pre.flat post.flat).isEmpty
+  if same then [] else
+    match post.vehicle? i.vehicle with
+    | none => ["C09/partial-effect| state changed but the instructed vehicle does not exist"]
+    | some veh =>
+      let entered : Bool := match i, veh.act with
+        | .idle _, .idle _ => true
+        | .dispatchTrip _ r, .dispatchTrip r' _ => r == r'
+        | .dispatchStation _ s c, .dispatchStation s' c' _ => s == s' && c == c'
+        | .dispatchStation _ s c, .chargingStation s' c' => s == s' && c == c'
+        | .chargeStation _ s c, .chargingStation s' c' => s == s' && c == c'
+        | .chargeBase _ b c, .chargingBase b' c' => b == b' && c == c'
+        | .dispatchBase _ b, .dispatchBase b' _ => b == b'
+        | .reposition _ _, .repositioning _ => true
+        | .reserveBase _ b, .reserveBase b' => b == b'
+        | .outOfService _, .outOfService => true
+        | _, _ => false
+      let recorded := post.applied.any (fun p => p.1 == i.vehicle && p.2 == i)
+      (if entered then [] else [s!"C09/partial-effect| the state changed although vehicle {i.vehicle} did not enter the instructed activity (now {veh.act.kind})"]) ++
+      (if recorded then [] else [s!"C09/not-recorded| accepted instruction for vehicle {i.vehicle} is missing from applied_instructions"])
+
 /-- handle one phase record: run the model from the implementation's pre-state, compare with the
     implementation's post-state, evaluate the monitors on the implementation's post-state -/
 def handlePhase (st : DState) (op : String) (j : Json) : Except String Json := do
@@ -40,7 +64,7 @@ def handlePhase (st : DState) (op : String) (j : Json) : Except String Json := d
     match op with
     | "apply" => do
       let instrs : List Instr ← getField j "instrs"
-      pure (applyInstructions env w0 instrs)
+      pure (some (applyInstructions env w0 instrs))
     | "update" => pure (some (vehicleUpdates env w0))
     | "tick" => pure (some { w0 with sim := w0.sim.tick })
     | _ => throw s!"unknown phase {op}"
@@ -60,7 +84,15 @@ def handlePhase (st : DState) (op : String) (j : Json) : Except String Json := d
     let isEl (i : MechId) : Bool := match mechOf st.mechs i with
       | some m => m.kind == .bev
       | none => true
-    let mon := monitorAll env post ++ viol04 cap post ++ viol04Step pre post ++ viol05Step isEl pre post evs
+    let single : List String ← match op with
+      | "apply" => do
+        let instrs : List Instr ← getField j "instrs"
+        let probe : Bool ← optField j "probe" false
+        pure (match probe, instrs with
+          | true, [i] => violAtomic pre post i
+          | _, _ => [])
+      | _ => pure []
+    let mon := monitorAll env post ++ viol04 cap post ++ viol04Step pre post ++ viol05Step isEl pre post evs ++ single
     pure (Json.mkObj [("diff", strs d), ("mon", strs mon)])
 
 /-- function-level record: `traverse(route, dt)` -/
@@ -149,6 +181,18 @@ def handle (st : DState) (line : String) : DState × Json :=
       | .error e => (st, withId (Json.mkObj [("error", Json.str e)]))
     | "apply" | "update" | "tick" =>
       match handlePhase st op j with
+      | .ok r => (st, withId r)
+      | .error e => (st, withId (Json.mkObj [("error", Json.str e)]))
+    | "stack" =>
+      match (do
+        let gens : List (List Instr) ← getField j "gens"
+        let drivers : List Instr ← getField j "drivers"
+        let final : List Instr ← getField j "final"
+        let m := finalInstructions gens drivers
+        let d := if m == final then [] else [s!"final instructions: model={reprStr m} impl={reprStr final}"]
+        let vs := final.map Instr.vehicle
+        let mon := if vs.eraseDups.length == vs.length then [] else ["C09/two-per-vehicle| two instructions for one vehicle reach apply_instructions"]
+        pure (Json.mkObj [("diff", strs d), ("mon", strs mon)]) : Except String Json) with
       | .ok r => (st, withId r)
       | .error e => (st, withId (Json.mkObj [("error", Json.str e)]))
     | "coll" =>
